@@ -7,22 +7,27 @@ ID = "C05"
 LEVEL = "proof"
 LEAN_MODULES = ["DracoProps.C05"]
 RULE = ("every stream of the committed corpus (corpus/: the 25 legacy .drc files of testdata written by Draco 0.9.0 … "
-        "1.1.0 / bitstreams 1.1 … 2.3, and 415 streams frozen from the encoder at freeze time over sequential / kd-tree "
+        "1.1.0 / bitstreams 1.1 … 2.3, and 427 streams frozen from the encoder at freeze time over sequential / kd-tree "
         "(all levels, nodes of 63/64/65/128/256 points) / Edgebreaker standard + valence, speeds 0..10, prediction "
-        "schemes, attribute layouts, quantization settings, metadata) is decoded by the CURRENT decoder and compared "
-        "token by token with the frozen ordered decode (consumed bytes, points, faces, attribute order, per-value "
-        "bytes, transforms, metadata); sequential streams >= 2.0 are also decoded by the Lean model; the headers of 20 "
-        "streams (every geometry type x method, every legacy writer version) are rewritten to every (major, minor) of "
-        "[0..4]x[0..9] and six far values: versions newer than mesh 2.2 / point cloud 2.3 must give UNKNOWN_VERSION, "
-        "the accept/reject decision must equal the gate table proved about the model (driver op vgate), and a "
-        "relabelled stream that decoded at freeze time must not silently decode to something else; non-trivial = "
-        "distinct stream bytes")
+        "schemes, attribute layouts, quantization settings, metadata, sequential meshes of 255/256/257 and "
+        "65535/65536/65537 points) is decoded by the CURRENT decoder and compared token by token with the frozen "
+        "ordered decode (consumed bytes, points, faces, attribute order, per-value bytes, transforms, metadata) AND "
+        "with the decode of the Lean decoder model (all methods, bitstreams 1.1 .. 2.3); the headers of 20 streams "
+        "(every geometry type x method, every legacy writer version) and of the six small size-boundary streams are "
+        "rewritten to every (major, minor) of [0..4]x[0..9] and six far values (the six 197 kB boundary streams to the "
+        "four versions next to the gate), 300 random (stream, version) pairs with minor up to 255: versions newer "
+        "than mesh 2.2 / point cloud 2.3 must give UNKNOWN_VERSION, the accept/reject decision must equal the gate "
+        "table proved about the model (driver op vgate), rewritten streams <= 4000 bytes are decoded by the model "
+        "too, and a relabelled stream that decoded at freeze time must not silently decode to something else; "
+        "legacy decode paths driven on purpose (props/legacycases.py); non-trivial = distinct stream bytes")
 THEOREM_BACKED = ("unknown_version_rejected / newer_version_stream_rejected (version gate of the decoder model, whatever "
                   "follows the header), gate_table_mesh / gate_table_point_cloud (decision tables), "
                   "format_constants_frozen* and version_gates_frozen (constants regenerated from the source == frozen copy)")
-CORRESPONDENCE_ONLY = ("every corpus stream (bitstreams 1.1 .. 2.3, all methods) is also decoded by the Lean decoder model and must "
-                       "agree token for token; branches the model answers `unsupported` for (see notes/eb.md) are checked "
-                       "against the frozen decode only")
+CORRESPONDENCE_ONLY = ("nothing in the corpus: every one of the 452 streams (bitstreams 1.1 .. 2.3, sequential, kd-tree, "
+                       "Edgebreaker) is decoded by the Lean decoder model and agrees token for token with the real decoder "
+                       "(evidence.input_distribution `model:decoded`; a `model:unsupported_*` tag would name a branch that "
+                       "is checked against the frozen decode only). That the model reads OLD bytes the way the decoder of "
+                       "that time did is not provable — it is what the frozen decodes record")
 EXPLANATION = ("history property: what is provable is the gate and the constancy of format constants; that the decoder "
                "still reads old bytes the old way is observed on the frozen corpus (exact replay: file + first "
                "differing element). Encoder bytes of the frozen inputs are re-produced and tagged encoder:same/changed "
@@ -111,8 +116,19 @@ def stream_cases(idx, streams, decodes, names=None):
                  oracle=frozen_oracle(n, decodes[n]),
                  tags=(e["kind"], "class:" + e["class"], "v" + e["version"], "model" if in_model else "impl-only"),
                  note=n)
+        if in_model:
+            c.mtag = model_tag
         cases.append(c)
     return cases
+
+
+def model_tag(mout):
+    """what the Lean decoder model said about a corpus stream (evidence.input_distribution)"""
+    if mout is None:
+        return "model:none"
+    if mout.startswith("unsupported"):
+        return "model:" + mout.replace(" ", "_")[:60]
+    return "model:decoded"
 
 
 def rewrite_cases(idx, streams, names, versions, with_model=True):
@@ -129,7 +145,7 @@ def rewrite_cases(idx, streams, names, versions, with_model=True):
                      tags=("rewrite", "rewrite:newer" if newer(is_mesh, ma, mi) else "rewrite:older-or-equal"),
                      note=f"{n} relabelled {ma}.{mi}", nontrivial=(ma, mi) != (h[0], h[1]))
             cases.append(c)
-            if with_model and len(b) <= 4000 and K.stream_class(b) in ("pc-seq", "mesh-seq"):
+            if with_model and len(b) <= 4000:
                 cases.append(Case("dec - " + rb.hex(), expect=model_expect, tags=("rewrite-model",),
                                   note=f"{n} relabelled {ma}.{mi} (model decode)", nontrivial=False))
     return cases
@@ -163,6 +179,13 @@ def generate(rng, tier):
     cases = stream_cases(idx, streams, decodes)
     rw_names = sorted(idx["version_rewrites"].keys())
     cases += rewrite_cases(idx, streams, rw_names, K.REWRITE_VERSIONS)
+    # the size-boundary streams (raw index width switches at 256 / 65536 points; appended to the corpus after the first
+    # freeze, no frozen rewrite table): gate oracle + gate table + model decode; the six 197 kB streams only at the
+    # versions next to the gate
+    bnd = [e for e in idx["entries"] if "_boundary_" in e["name"]]
+    cases += rewrite_cases(idx, streams, [e["name"] for e in bnd if e["size"] <= 4000], K.REWRITE_VERSIONS)
+    cases += rewrite_cases(idx, streams, [e["name"] for e in bnd if e["size"] > 4000], [(2, 1), (2, 3), (3, 0), (0, 9)],
+                           with_model=False)
     # seeded: random streams of the corpus relabelled with random versions (minor up to 255)
     small = [e["name"] for e in idx["entries"] if e["size"] <= 8000]
     for _ in range(1500 if tier == "thorough" else 300):
